@@ -1,0 +1,16 @@
+//go:build verif
+
+package cache
+
+// VerifEntries returns the cached objects by id (build tag verif).
+func (c *Cache) VerifEntries() map[uint64]interface{} {
+	c.mu.Lock()
+	defer c.mu.Unlock()
+	r := make(map[uint64]interface{})
+	for id, e := range c.entries {
+		if e.slot.Obj != nil {
+			r[id] = e.slot.Obj
+		}
+	}
+	return r
+}
